@@ -124,6 +124,15 @@ class PhaseField(_Simu):
             self.ProblemTypes.elastic,
         )
 
+    @_Simu.mesh.setter
+    def mesh(self, mesh: Mesh) -> None:
+        _Simu.mesh.fset(self, mesh)
+        # the history field lives on the Gauss points of the previous mesh: like the solution
+        # fields, it starts from scratch on a new one (empty (Ne, nPg) arrays, so that every
+        # consumer sees a shape mismatch and rebuilds it)
+        self.__psiP_e_pg = FeArray.zeros(0, 0)
+        self.__old_psiP_e_pg = FeArray.zeros(0, 0)
+
     def Results_nodeFields_elementFields(
         self, details=False
     ) -> tuple[list[str], list[str]]:
